@@ -39,12 +39,12 @@ theorem flatten_getD (objs : List (List Nat)) (n k : Nat) (hk : k < (objs.getD n
 structure WI (S : Nat) (flat : List Nat) (sec : Nat → Nat) (a : Alloc) (m : Mem) (r : Wr) : Prop where
   hF : ∀ k, k < r.data.length → flat.getD (r.start + k) 0 = r.data.getD k 0
   hB : r.start + r.data.length ≤ total S a
-  run : r.flushed = false → WP S flat sec a.nextId m r.w r.start r.data r.c
+  run : r.flushed = false → r.dead = false → WP S flat sec a.nextId m r.w r.start r.data r.c
   done : r.flushed = true → Done S flat m r.start r.data
 
 theorem WI.mono {S flat sec a m m' r} (wi : WI S flat sec a m r) (mo : Mono S flat sec a m m') :
     WI S flat sec a m' r :=
-  ⟨wi.hF, wi.hB, fun h => (wi.run h).mono mo, fun h => (wi.done h).mono mo⟩
+  ⟨wi.hF, wi.hB, fun h hd => (wi.run h hd).mono mo, fun h => (wi.done h).mono mo⟩
 
 /-- The invariant of the whole block. -/
 structure Inv (S : Nat) (objs : List (List Nat)) (s : Sys) (sec : Nat → Nat) : Prop where
@@ -82,13 +82,14 @@ theorem inv_write {S objs s sec} (hS : 0 < S) (inv : Inv S objs s sec) (i n : Na
   cases hi : s.ws[i]? with
   | none => simp only [Sys.step, hi]; exact inv
   | some r =>
-    cases hfl : r.flushed with
-    | true => simp only [Sys.step, hi, hfl, if_true]; exact inv
-    | false =>
-      simp only [Sys.step, hi, hfl, Bool.false_eq_true, if_false]
+    by_cases hfd : r.flushed = true ∨ r.dead = true
+    · simp only [Sys.step, hi, hfd, if_true]; exact inv
+    · simp only [Sys.step, hi, hfd, if_false]
+      have hfl : r.flushed = false := by cases h : r.flushed <;> simp_all
+      have hdd : r.dead = false := by cases h : r.dead <;> simp_all
       have hmem : r ∈ s.ws := List.mem_of_getElem? hi
       have wi := inv.wi r hmem
-      have wp := wi.run hfl
+      have wp := wi.run hfl hdd
       have hp : ∀ k, k < ((r.data.drop r.c).take n).length →
           ((r.data.drop r.c).take n).getD k 0 = r.data.getD (r.c + k) 0 := by
         intro k hk
@@ -105,7 +106,7 @@ theorem inv_write {S objs s sec} (hS : 0 < S) (inv : Inv S objs s sec) (i n : Na
         rcases List.mem_or_eq_of_mem_set hx with h | h
         · exact (inv.wi x h).mono mo
         · subst h
-          exact ⟨wi.hF, wi.hB, fun _ => wp', fun h => by simp at h⟩
+          exact ⟨wi.hF, wi.hB, fun _ _ => wp', fun h => by simp [hfl] at h⟩
       · intro j x hx
         rw [List.getElem?_set] at hx
         split at hx
@@ -116,25 +117,86 @@ theorem inv_write {S objs s sec} (hS : 0 < S) (inv : Inv S objs s sec) (i n : Na
           · cases hx
         · exact inv.idx j x hx
 
+theorem inv_writeFail {S objs s sec} (hS : 0 < S) (inv : Inv S objs s sec) (i n k : Nat) :
+    Inv S objs (s.step objs (.writeFail i n k)) sec := by
+  cases hi : s.ws[i]? with
+  | none => simp only [Sys.step, hi]; exact inv
+  | some r =>
+    by_cases hfd : r.flushed = true ∨ r.dead = true
+    · simp only [Sys.step, hi, hfd, if_true]; exact inv
+    · simp only [Sys.step, hi, hfd, if_false]
+      have hfl : r.flushed = false := by cases h : r.flushed <;> simp_all
+      have hdd : r.dead = false := by cases h : r.dead <;> simp_all
+      have hmem : r ∈ s.ws := List.mem_of_getElem? hi
+      have wi := inv.wi r hmem
+      have wp := wi.run hfl hdd
+      have hp : ∀ k, k < ((r.data.drop r.c).take n).length →
+          ((r.data.drop r.c).take n).getD k 0 = r.data.getD (r.c + k) 0 := by
+        intro k hk
+        simp only [List.length_take, List.length_drop] at hk
+        simp only [List.getD_eq_getElem?_getD, List.getElem?_take, List.getElem?_drop]
+        rw [if_pos (by omega)]
+      have hpl : r.c + ((r.data.drop r.c).take n).length ≤ r.data.length := by
+        have := wp.cle
+        simp only [List.length_take, List.length_drop]; omega
+      obtain ⟨gm', mo, hm', wp'⟩ := writeFail_spec hS inv.hm wi.hF wi.hB ⟨r, hmem, rfl, rfl⟩ inv.ga inv.gm wp hp hpl k
+      generalize r.w.writeFail s.m ((r.data.drop r.c).take n) k = res at gm' mo hm' wp'
+      obtain ⟨m', ow⟩ := res
+      dsimp only at gm' mo hm' wp'
+      have hidx : ∀ (r' : Wr), r'.start = r.start → r'.data = r.data → ∀ j x, (s.ws.set i r')[j]? = some x →
+          x.start = ((objs.take j).flatten).length ∧ x.data = objs.getD j [] := by
+        intro r' h1 h2 j x hx
+        rw [List.getElem?_set] at hx
+        split at hx
+        · next hij =>
+          subst hij
+          split at hx
+          · cases hx; rw [h1, h2]; exact inv.idx i r hi
+          · cases hx
+        · exact inv.idx j x hx
+      cases ow with
+      | some w' =>
+        dsimp only
+        refine ⟨hm', inv.ga.set i r _ hmem rfl rfl, gm', ?_, ?_, hidx _ rfl rfl⟩
+        · simp only [List.length_set]; exact inv.tot
+        · intro x hx
+          rcases List.mem_or_eq_of_mem_set hx with h | h
+          · exact (inv.wi x h).mono mo
+          · subst h
+            exact ⟨wi.hF, wi.hB, fun _ _ => wp' w' rfl, fun h => by simp [hfl] at h⟩
+      | none =>
+        dsimp only
+        refine ⟨hm', inv.ga.set i r _ hmem rfl rfl, gm', ?_, ?_, hidx _ rfl rfl⟩
+        · simp only [List.length_set]; exact inv.tot
+        · intro x hx
+          rcases List.mem_or_eq_of_mem_set hx with h | h
+          · exact (inv.wi x h).mono mo
+          · subst h
+            exact ⟨wi.hF, wi.hB, fun _ hd => by simp at hd, fun h => by simp [hfl] at h⟩
+
 theorem inv_flush {S objs s sec} (hS : 0 < S) (inv : Inv S objs s sec) (i : Nat) :
     Inv S objs (s.step objs (.flush i)) sec := by
   cases hi : s.ws[i]? with
   | none => simp only [Sys.step, hi]; exact inv
   | some r =>
-    by_cases hc : r.flushed = true ∨ r.c ≠ r.data.length
+    by_cases hc : r.flushed = true ∨ r.dead = true ∨ r.c ≠ r.data.length
     · simp only [Sys.step, hi, hc, if_true]; exact inv
     · simp only [Sys.step, hi, hc, if_false]
       have hfl : r.flushed = false := by
         cases h : r.flushed with
         | true => exact absurd (Or.inl h) hc
         | false => rfl
+      have hdd : r.dead = false := by
+        cases h : r.dead with
+        | true => exact absurd (Or.inr (Or.inl h)) hc
+        | false => rfl
       have hcc : r.c = r.data.length := by
         rcases Nat.decEq r.c r.data.length with h | h
-        · exact absurd (Or.inr h) hc
+        · exact absurd (Or.inr (Or.inr h)) hc
         · exact h
       have hmem : r ∈ s.ws := List.mem_of_getElem? hi
       have wi := inv.wi r hmem
-      have wp := wi.run hfl
+      have wp := wi.run hfl hdd
       rw [hcc] at wp
       obtain ⟨e, dn⟩ := flush_spec (ws := s.ws) hS inv.hm wi.hF wi.hB inv.ga wp
       have mo := e.mono inv.ga inv.gm
@@ -144,7 +206,7 @@ theorem inv_flush {S objs s sec} (hS : 0 < S) (inv : Inv S objs s sec) (i : Nat)
         rcases List.mem_or_eq_of_mem_set hx with h | h
         · exact (inv.wi x h).mono mo
         · subst h
-          exact ⟨wi.hF, wi.hB, fun h => by simp at h, fun _ => dn⟩
+          exact ⟨wi.hF, wi.hB, fun h _ => by simp at h, fun _ => dn⟩
       · intro j x hx
         rw [List.getElem?_set] at hx
         split at hx
@@ -368,10 +430,10 @@ theorem inv_alloc {S objs s sec} (hS : 0 < S) (inv : Inv S objs s sec) :
     intro r hr
     rcases List.mem_append.mp hr with h | h
     · have wi := inv.wi r h
-      exact ⟨wi.hF, by have := wi.hB; omega, fun hf => (wi.run hf).congr hsec hnid, wi.done⟩
+      exact ⟨wi.hF, by have := wi.hB; omega, fun hf hd => (wi.run hf hd).congr hsec hnid, wi.done⟩
     · simp only [List.mem_singleton] at h
       subst h
-      exact ⟨hr0F, by dsimp only; omega, fun _ => hwp0, fun h => by simp at h⟩
+      exact ⟨hr0F, by dsimp only; omega, fun _ _ => hwp0, fun h => by simp at h⟩
   · -- idx
     intro i r hi
     by_cases hlt : i < s.ws.length
